@@ -168,7 +168,8 @@ class Flow(object):
       return [Root("const", e, (), nid)]
     if isinstance(e, ast.Call):
       fname = dotted(e.func)
-      if self.passthrough and fname in PASSTHROUGH and len(e.args) == 1 and not e.keywords:
+      if self.passthrough and fname in PASSTHROUGH and len(e.args) == 1 and \
+          (not e.keywords or fname == "sorted"):
         return self.roots(e.args[0], nid, seen, depth + 1)
       return [Root("call", e, (), nid)]
     if isinstance(e, ast.Attribute):
